@@ -71,6 +71,10 @@ SEGS = [
     (r"/ab\n?", 0, lambda rng: "/ab" + rng.choice(["", "\n"])),
     (r"/(?i)ab", 0, lambda rng: "/" + rng.choice(["ab", "AB", "aB"])),
     (r"/\d{1,2}", 0, lambda rng: "/" + _digits(rng)[:2]),
+    # a final newline can only be consumed by backtracking past a position where "$" (but not "\z") already holds
+    (r"/ab\n??", 0, lambda rng: "/ab" + rng.choice(["", "\n"])),
+    (r"(?:/ab|/ab\n)", 0, lambda rng: "/ab" + rng.choice(["", "\n"])),
+    (r"/(a.*?)\n??", 1, lambda rng: "/a" + rng.choice(["", "b", "\n", "b\n"])),
 ]
 # engine features on which "anchored exec succeeded" and "matched the whole string" differ
 ADVERSARIAL = [
@@ -133,7 +137,7 @@ def rand_string(rng):
     return "".join(rng.choice("/ab1x\n\0A.-") for _ in range(rng.randrange(0, 9)))
 
 
-METHOD_FILTERS = ["GET", "POST", "PUT", "", "(GET|POST)", "GET|HEAD", "P.*", "get", "[A-Z]+", "G.T", "GE(*ACCEPT)T", "(PUT|POST)", "GET$", "GET\\n?"]
+METHOD_FILTERS = ["GET", "POST", "PUT", "", "(GET|POST)", "GET|HEAD", "P.*", "get", "[A-Z]+", "G.T", "GE(*ACCEPT)T", "(PUT|POST)", "GET$", "GET\\n?", "GET\\n??", "GET|GET\\n"]
 METHODS = ["GET", "POST", "PUT", "HEAD", "GETX", "get", "", "GE", "GET\n", "PATCH", "XGET", "P"]
 
 
@@ -169,8 +173,11 @@ def gen_leaf(rng, ids, p_broken=0.0):
         kind = "rh"
     else:
         kind = "g"
-        if rng.random() < 0.3:
-            kind = "g:%d:%s" % (rng.randrange(0, g + 1), hx(rng.choice(["a", "ab", "1", "", "x"])))
+        if rng.random() < 0.5:
+            # declines when the chosen group has this value: sample one from the pattern's own language half of the time
+            gi = rng.randrange(0, g + 1)
+            val = rng.choice(["a", "ab", "1", "", "x", "/a", "/ab"]) if rng.random() < 0.5 or gi != 0 else pat_sample(rng, segs)
+            kind = "g:%d:%s" % (gi, hx(val))
         if rng.random() < 0.6:
             meth = hx(rng.choice(METHOD_FILTERS))
         icase = rng.random() < 0.2
@@ -228,6 +235,35 @@ def gen_D(rng, n, out):
             url = gen_url(rng, sampler)
             meth = "_" if rng.random() < 0.12 else hx(rng.choice(METHODS))
             out.append("D %s %s | %s |" % (meth, hx(url), " ".join(tw)))
+
+
+def gen_D_decline(rng, n, out):
+    """chains of generic handlers with overlapping languages where some decline ("parameters did not validate"): the scan must
+    continue with the next option, in order, also across mounts and with method filters in between"""
+    vals = ["a", "ab", "1", "x", ""]
+    for _ in range(n):
+        ids = Counter()
+        items = []
+        used = []
+        for _ in range(rng.randrange(2, 6)):
+            rx, g = rng.choice([(r"/(.*)", 1), (r"/([a-z]*)", 1), (r"/(a|ab|1)?", 1), (r"(/)(.*)", 2), (r"/(.*)", 0)])
+            r = rng.random()
+            if r < 0.6:
+                v = rng.choice(used) if used and rng.random() < 0.5 else rng.choice(vals)
+                used.append(v)
+                kind = "g:%d:%s" % (g, hx(("/" + v) if g == 0 else v))
+            elif r < 0.8:
+                kind = "g"
+            else:
+                kind = rng.choice(["rh", "hN:1", "h0"])
+            meth = hx(rng.choice(["GET", "(GET|POST)", "POST"])) if kind.startswith("g") and rng.random() < 0.4 else "_"
+            items += ["L", str(ids.next()), retok(rx), meth, kind]
+            if rng.random() < 0.2:
+                items += ["C", retok(r"/(a.*)"), "1", "_", "-", "{", "L", str(ids.next()), retok(r"a(.*)"), "_", "g:1:" + hx(rng.choice(vals)), "}"]
+        for _ in range(3):
+            url = "/" + (rng.choice(used) if used and rng.random() < 0.75 else rng.choice(vals + ["ab1", "b"]))
+            meth = "_" if rng.random() < 0.1 else hx(rng.choice(["GET", "POST", "PUT"]))
+            out.append("D %s %s | { %s } |" % (meth, hx(url), " ".join(items)))
 
 
 # ------------------------------------------------------------------ mount points / pool
@@ -373,6 +409,8 @@ def gen_U(rng, n, out):
                                       "/c0/k", "k;lang", "k;lang,x", "k;", ";lang", "c0/", "/c0", "blog0/c0/k", "", "k/", "//k", "c/k"]), rng.randrange(0, 4)
             if rng.random() < 0.15:
                 ar = rng.randrange(0, 7)
+            if r < 0.6 and rng.random() < 0.35:
+                key += rng.choice([";lang", ";lang,k", ";k,lang", ";x", ";lang,lang"])
             nkw = key.count(",") + 1 if ";" in key else 0
             np_ = min(6, ar + (nkw if rng.random() < 0.8 else 0))
             params = [rng.choice(PARAM_VALUES) for _ in range(np_)]
@@ -403,11 +441,17 @@ def gen_site(rng, depth, ids, keyn):
                 rxp += "/" + g[0]
                 tpl += "/{%d}" % (i + 1)
             hid = ids.next()
-            kind = "h0" if ar == 0 else "hN:" + ",".join(str(i + 1) for i in range(ar))
-            if rng.random() < 0.25 and ar > 0:
+            haslang = rng.random() < 0.3
+            ng = ar
+            if haslang:          # keyword substitution: {lang} comes from set_value or from a ";lang" keyword parameter
+                rxp += "/([a-z]+)"
+                tpl += "/{lang}"
+                ng += 1
+            kind = "h0" if ng == 0 else "hN:" + ",".join(str(i + 1) for i in range(ng))
+            if rng.random() < 0.25 and ng > 0:
                 kind = "rh"
             items += ["L", str(hid), retok(rxp), "_", kind, "U", hx(key), hx(tpl)]
-            entries.append(([], key, [g[1] for g in gs], hid, kind))
+            entries.append(([], key, [g[1] for g in gs], hid, kind, haslang))
         elif what == "c":
             name = "c%d" % keyn.next()
             cw, ce = gen_site(rng, depth - 1, ids, keyn)
@@ -419,8 +463,8 @@ def gen_site(rng, depth, ids, keyn):
             else:
                 rxp, sel, tpl = "/{0}(.*)".format(name), 1, "/{0}{{1}}".format(name)
             items += ["C", retok(rxp), str(sel), hx(name), hx(tpl)] + cw
-            for pos, key, ps, hid, kind in ce:
-                entries.append(([nk] + pos, key, ps, hid, kind))
+            for pos, key, ps, hid, kind, hl in ce:
+                entries.append(([nk] + pos, key, ps, hid, kind, hl))
             nk += 1
         else:
             # a sibling whose language may overlap the others (first-match matters)
@@ -436,7 +480,7 @@ def gen_R(rng, n, out, expect):
             continue
         root = rng.choice(["", "/root", "/s.cgi"])
         for _ in range(4):
-            pos, key, ps, hid, kind = rng.choice(entries)
+            pos, key, ps, hid, kind, haslang = rng.choice(entries)
             params = [p(rng) for p in ps]
             frm = list(rng.choice(entries)[0]) if rng.random() < 0.5 else pos
             # address the entry from mapper `frm` with an absolute key built from the child names on the way
@@ -445,10 +489,22 @@ def gen_R(rng, n, out, expect):
                 k = key if rng.random() < 0.6 else "./" + key
             else:
                 k = "/" + "/".join(names + [key])
-            line = "R %s %s 0 %s %s %d %s | %s |" % (hx("GET"), hx(root), ".".join(map(str, frm)) or "-", hx(k), len(params),
-                                                   " ".join(hx(p) for p in params), " ".join(tw))
+            helpers = []
+            want = list(params)
+            if haslang:
+                helpers = [("lang", "en")] if rng.random() < 0.8 else []
+                if rng.random() < 0.5:       # keyword parameter overrides the helper value
+                    k += ";lang"
+                    params = ["he"] + params
+                    want = want + ["he"]
+                else:
+                    want = want + ["en" if helpers else ""]
+            line = "R %s %s %d %s %s %s %d %s | %s |" % (hx("GET"), hx(root), len(helpers), " ".join(hx(a) + " " + hx(b) for a, b in helpers),
+                                                      ".".join(map(str, frm)) or "-", hx(k), len(params),
+                                                      " ".join(hx(p) for p in params), " ".join(tw))
+            line = " ".join(line.split())
             out.append(line)
-            expect[line] = (hid, params, kind)
+            expect[line] = (hid, want, kind)
 
 
 def names_on_path(tw, pos):
@@ -492,6 +548,7 @@ def gen_cases(c, scale):
     out = []
     expect = {}
     gen_D(rng, 260 * scale, out)
+    gen_D_decline(rng, 40 * scale, out)
     gen_MP(rng, 150 * scale, out)
     gen_P(rng, 60 * scale, out)
     gen_T(rng, 400 * scale, out)
@@ -619,7 +676,7 @@ def main():
         rlines = []
         for k in ridx:
             hid, params, kind = exp_full[full[k]]
-            rlines.append("JR %d %s %s # %s" % (hid, "rh" if kind == "rh" else "plain", full[k], out_i[k]))
+            rlines.append("JR %d %s %d %s %s # %s" % (hid, "rh" if kind == "rh" else "plain", len(params), " ".join(hx(x) for x in params), full[k], out_i[k]))
         rcr, rout, rerr = c.run_lines(model, rlines)
         if rcr != 0 or len(rout) != len(ridx):
             c.broke("judge run (Consistent)", rerr)
